@@ -795,6 +795,17 @@ loop:
 		// aligned sequences exactly (old names included)
 		exp = aligned
 		w.segBurst = false
+		// a Create names its old name only if the Rename of the same move was
+		// delivered: where that (optional) Rename was left out because its
+		// watch had been removed before the reader got to it, no old name is
+		// known to the Watcher either
+		for i := range exp {
+			if exp[i].From != "" && exp[i].Op&fsnotify.Create != 0 {
+				if i == 0 || exp[i-1].Name != exp[i].From || exp[i-1].Op&fsnotify.Rename == 0 {
+					exp[i].From = ""
+				}
+			}
+		}
 	} else {
 		exp, got = dropOptional(exp, opt, got)
 	}
@@ -1421,6 +1432,35 @@ func (w *World) Recv(n int, got *[]Ev) {
 	if n > 0 {
 		w.Feat["blocking-partial-receives"]++
 		w.plugged = false
+		w.waitReaderSettled()
+	}
+}
+
+// waitReaderSettled waits (bounded, best effort) until the reader goroutine
+// has gone as far as it can after a partial receive: parked in the next send
+// or asleep waiting for the kernel. What follows in the case then meets the
+// reader in a known place rather than racing it for the lock.
+func (w *World) waitReaderSettled() {
+	deadline := time.Now().Add(30 * time.Millisecond)
+	for {
+		settled := false
+		for _, g := range FsnotifyGoroutines() {
+			if !strings.Contains(g, "readEvents") {
+				continue
+			}
+			if h := goHeader.FindStringSubmatch(g); h != nil {
+				switch {
+				case (h[2] == "select" || h[2] == "chan send") && strings.Contains(g, "sendEvent"):
+					settled = true
+				case h[2] == "IO wait":
+					settled = true
+				}
+			}
+		}
+		if settled || time.Now().After(deadline) {
+			return
+		}
+		runtime.Gosched()
 	}
 }
 
